@@ -14,8 +14,11 @@ import (
 // Trap classes shared by every engine adapter.
 const (
 	TrapDivZero   = "integer-divide-by-zero"
-	TrapOverflow  = "integer-overflow"
-	TrapConv      = "invalid-conversion-to-integer"
+	// Signed division overflow, truncation of an out-of-range float and truncation of a NaN are ONE
+	// class: V8 words the last two identically ("float unrepresentable in integer range"), wazero
+	// words the first two identically ("integer overflow", as the specification's test suite does).
+	TrapOverflow  = "integer-result-unrepresentable"
+	TrapConv      = TrapOverflow
 	TrapOOB       = "out-of-bounds-memory-access"
 	TrapUnreach   = "unreachable"
 	TrapIndirect  = "indirect-call(null/type-mismatch/out-of-range)"
